@@ -121,6 +121,22 @@ def run(prop, tier, seed):
                 pev = record_events(pools, work, name="pool")
                 judge(c, prop, pev, work, "pools")
                 c.evaluations += sum(len(p["items"]) ** 2 for p in pools)
+            if prop == "C08":
+                # the interactive builder's return value: complete sessions, official pattern demanded
+                from props import interactive16
+                its = [i for i in interactive16.targeted_scripts(rnd)]
+                its = [i for i in its if i["all"]][::3] + [i for i in its if not i["all"]][::7]
+                sess = record_events(its, work, name="sess", script="interactive.py")
+                sess_done = [s_ for s_ in sess if s_["events"] and s_["events"][-1]["ev"] == "Return"]
+                acc, rej = interactive16.validate(c, sess_done, work, True, "builder-sessions")
+                acc2, rej2 = interactive16.validate(c, sess_done, work, False, "builder-sessions-nopattern")
+                for t in sorted(set(rej) - acc):
+                    if t in acc2:      # rejected only because of the pattern clause
+                        s_ = sess_done[t - 1]
+                        c.violation("C08|builder-return-violates-official-pattern|v%s" % s_["bver"],
+                                    "ask_interactively(%s, all=%s) returned %s" % (s_["bver"], s_["all"], s_["events"][-1]["value"]), {"session": s_})
+                c.traces += len(sess_done)
+                c.extra["builder_sessions_checked"] = len(sess_done)
             c.nontrivial = len(set(e["s"] for e in ev))
             c.rule = ("valid vectors: every metric x every value x every group-presence shape in random field order, plus seeded random "
                       "spellings; one construct event each with every emitted string re-offered to the library's own constructor"
